@@ -385,7 +385,7 @@ class ArrayQuantity(GenericQuantity, np.ndarray):
 
             data = values
             if units:
-                if use_units != units:
+                if use_units is not None and use_units != units:
                     raise UnitsError(
                         'Units in contents do not match specified units in '
                         'ArrayQuantity initializer')
